@@ -6,6 +6,7 @@ the root `√2^(256N/2^k)`, forward and inverse, word-exact, no panic site), `mu
 transforms, pointwise products, inverse transform = cyclic convolution; instantiates `dft_conv`).
 -/
 import Ymq.Lemmas.FIntRoot
+import Ymq.Lemmas.FIntKara
 import Ymq.Lemmas.PolyDft
 import Mathlib.Data.ZMod.Basic
 import Mathlib.Tactic.LinearCombination
@@ -26,8 +27,8 @@ theorem WN_cast (N : Nat) : ((W ^ N : Nat) : ZMod (Fmod N)) = -1 := by
   push_cast at h ⊢
   exact eq_neg_of_add_eq_zero_left h
 
-/-- `FInt::mul` (around the exact product of the word vectors) multiplies residues -/
-theorem mul_spec' {N : Nat} (x y : FI) (hN : 0 < N) (hx : WfN N x) (hy : WfN N y)
+/-- `FInt::mul` multiplies residues (word-level Karatsuba product included), for `N` in the domain `kOk` -/
+theorem mul_spec' {N : Nat} (x y : FI) (hN : 0 < N) (hk : kOk KFUEL N = true) (hx : WfN N x) (hy : WfN N y)
     (hnx : Norm x) (hny : Norm y) :
     ∃ r, mul x y = some r ∧ WfN N r ∧ Norm r ∧ vz N r = vz N x * vz N y := by
   unfold mul
@@ -66,34 +67,33 @@ theorem mul_spec' {N : Nat} (x y : FI) (hN : 0 < N) (hx : WfN N x) (hy : WfN N y
       rw [hyv]; linear_combination hv'
     · rw [if_neg h2]
       have hy0 : y.top = 0 := by have := norm_top_le hny; omega
-      set z := val x.ws * val y.ws with hzdef
-      have ha : WfN N ⟨ofNat N z, 0⟩ := ⟨by simp, ofNat_Wf N z⟩
-      have hb : WfN N ⟨ofNat N (z / W ^ N), 0⟩ := ⟨by simp, ofNat_Wf N _⟩
+      obtain ⟨z, ez, lz, wz, vzz⟩ := kmul_spec KFUEL (4 * N) x.ws y.ws (by rw [hx.1]; exact hk)
+        (by rw [hx.1, hy.1]) (by rw [hx.1]) hx.2 hy.2
+      rw [ez]
+      simp only
+      rw [hx.1] at lz
+      have ha : WfN N ⟨z.take N, 0⟩ := ⟨by simp only [List.length_take, lz]; omega, Wf_take wz _⟩
+      have hb : WfN N ⟨z.drop N, 0⟩ := ⟨by simp only [List.length_drop, lz]; omega, Wf_drop wz _⟩
       obtain ⟨r, hr, hw, hn, hv⟩ := sub_spec' _ _ hN ha hb (Or.inl rfl) (Or.inl rfl)
       refine ⟨r, hr, hw, hn, ?_⟩
       have hv' := modEq_iff_cast.1 hv
-      have hvx := val_lt hx.2; rw [hx.1] at hvx
-      have hvy := val_lt hy.2; rw [hy.1] at hvy
-      have hzlt : z / W ^ N < W ^ N := by
-        apply Nat.div_lt_of_lt_mul
-        exact Nat.mul_lt_mul'' hvx hvy
-      have hva : (FI.mk (ofNat N z) 0).value = z % W ^ N := by
-        simp only [FI.value, val_ofNat, Nat.mul_zero, Nat.add_zero]
-      have hvb : (FI.mk (ofNat N (z / W ^ N)) 0).value = z / W ^ N := by
-        simp only [FI.value, val_ofNat, Nat.mul_zero, Nat.add_zero, Nat.mod_eq_of_lt hzlt]
+      have hva : (FI.mk (z.take N) 0).value = val (z.take N) := by
+        simp only [FI.value, Nat.mul_zero, Nat.add_zero]
+      have hvb : (FI.mk (z.drop N) 0).value = val (z.drop N) := by
+        simp only [FI.value, Nat.mul_zero, Nat.add_zero]
       rw [hva, hvb] at hv'
-      have hsplit : z = z % W ^ N + W ^ N * (z / W ^ N) := (Nat.mod_add_div z (W ^ N)).symm
-      have hxy : vz N x * vz N y = (z : ZMod (Fmod N)) := by
-        unfold vz FI.value; rw [hx0, hy0, hzdef]; push_cast; ring
-      rw [hxy]
-      have hc : (z : ZMod (Fmod N)) = ((z % W ^ N : Nat) : ZMod (Fmod N)) + ((W ^ N : Nat) : ZMod (Fmod N)) * ((z / W ^ N : Nat) : ZMod (Fmod N)) := by
-        conv_lhs => rw [hsplit]
+      have hsplit : val x.ws * val y.ws = val (z.take N) + W ^ N * val (z.drop N) := by
+        rw [← vzz]; exact val_take_drop z N
+      have hxy : vz N x * vz N y = ((val x.ws * val y.ws : Nat) : ZMod (Fmod N)) := by
+        unfold vz FI.value; rw [hx0, hy0]; push_cast; ring
+      rw [hxy, hsplit]
+      have hc : (((val (z.take N) + W ^ N * val (z.drop N) : Nat)) : ZMod (Fmod N)) =
+          ((val (z.take N) : Nat) : ZMod (Fmod N)) + ((W ^ N : Nat) : ZMod (Fmod N)) * ((val (z.drop N) : Nat) : ZMod (Fmod N)) := by
         push_cast; ring
       rw [hc, WN_cast, ← hv']
       unfold vz
       push_cast
       ring
-
 
 /-! ### the roots in `ℤ/F` -/
 
@@ -497,7 +497,7 @@ theorem log2Exact_pow : ∀ (f k : Nat), k < f → log2Exact f (2 ^ k) = some k 
       rw [if_neg h1, if_neg h2, show 2 ^ (k + 1) / 2 = 2 ^ k by rw [pow_succ]; omega, ih k (by omega)]
       rfl
 
-theorem mulAll_spec {N : Nat} (hN : 0 < N) (d : FI) :
+theorem mulAll_spec {N : Nat} (hN : 0 < N) (hk : kOk KFUEL N = true) (d : FI) :
     ∀ (as bs : List FI), as.length = bs.length → Good N as → Good N bs →
     ∃ cs, mulAll as bs = some cs ∧ cs.length = as.length ∧ Good N cs ∧
       ∀ t, t < as.length → vz N (cs.getD t d) = vz N (as.getD t d) * vz N (bs.getD t d) := by
@@ -513,7 +513,7 @@ theorem mulAll_spec {N : Nat} (hN : 0 < N) (d : FI) :
     | cons b bs =>
       obtain ⟨hwa, hna⟩ := hga a (List.mem_cons_self)
       obtain ⟨hwb, hnb⟩ := hgb b (List.mem_cons_self)
-      obtain ⟨c, e1, hwc, hnc, hvc⟩ := mul_spec' a b hN hwa hwb hna hnb
+      obtain ⟨c, e1, hwc, hnc, hvc⟩ := mul_spec' a b hN hk hwa hwb hna hnb
       obtain ⟨cs, e2, lc, gc, hrec⟩ := ih bs (by simpa using hlen)
         (fun x hx => hga x (List.mem_cons_of_mem _ hx)) (fun x hx => hgb x (List.mem_cons_of_mem _ hx))
       refine ⟨c :: cs, by simp only [mulAll, e1, e2], by simp [lc], ?_, ?_⟩
@@ -533,9 +533,9 @@ theorem two_pow_period (N : Nat) : (2 : ZMod (Fmod N)) ^ (128 * N) = 1 := by
 
 open Ymq.Dft in
 /-- **`mulfft` is the cyclic convolution modulo `F`** (word-level model, around the exact products
-of `FInt::mul`): for `2^k` entries in normal form, `2^k ∣ 128N` or `2^k = 256N`, no panic site is
+of `FInt::mul`): for `2^k` entries in normal form, `N` in the Karatsuba domain, `2^k ∣ 128N` or `2^k = 256N`, no panic site is
 reached and entry `m` of the result is the residue of `Σ_{a+b ≡ m (mod 2^k)} p1[a]·p2[b]`. -/
-theorem mulfft_spec {N : Nat} (hN : 0 < N) (d : FI) (k : Nat) (p1 p2 : List FI)
+theorem mulfft_spec {N : Nat} (hN : 0 < N) (hkk : kOk KFUEL N = true) (d : FI) (k : Nat) (p1 p2 : List FI)
     (h1 : p1.length = 2 ^ k) (h2 : p2.length = 2 ^ k) (g1 : Good N p1) (g2 : Good N p2)
     (hk : k < 32) (hb : 128 * 2 ^ k * N < 2 ^ 32) (hdiv : 2 ^ k ∣ 128 * N ∨ 2 ^ k = 256 * N) :
     ∃ out, mulfft N p1 p2 = some out ∧ out.length = 2 ^ k ∧ Good N out ∧
@@ -546,7 +546,7 @@ theorem mulfft_spec {N : Nat} (hN : 0 < N) (d : FI) (k : Nat) (p1 p2 : List FI)
   have hkN : k ≤ 128 * N := by omega
   obtain ⟨f1, e1, l1, gf1, hf1⟩ := fft_spec hN d true k p1 0 h1 g1 hk hb hdiv (by omega)
   obtain ⟨f2, e2, l2, gf2, hf2⟩ := fft_spec hN d true k p2 0 h2 g2 hk hb hdiv (by omega)
-  obtain ⟨f, e3, l3, gf, hf⟩ := mulAll_spec hN d f1 f2 (by rw [l1, l2]) gf1 gf2
+  obtain ⟨f, e3, l3, gf, hf⟩ := mulAll_spec hN hkk d f1 f2 (by rw [l1, l2]) gf1 gf2
   obtain ⟨out, e4, l4, go, ho⟩ := fft_spec hN d false k f 0 (by rw [l3, l1]) gf hk hb hdiv (by omega)
   refine ⟨out, ?_, l4, go, ?_⟩
   · unfold mulfft
